@@ -107,19 +107,7 @@ func HarnessC10Lookups() {
 	w.history("C10.history", false)
 	undone := false
 	if verifParam("undo", 0) == 1 && len(w.recs) > 0 {
-		r := w.recs[len(w.recs)-1]
-		na := uint64(len(r.b.adds))
-		if w.p != nil {
-			verifAssume(w.p.Undo(na, r.b.proof, r.b.hashes, r.prevRoots) == nil)
-		}
-		if w.full != nil {
-			verifAssume(w.full.Undo(na, r.b.proof, r.b.hashes, r.prevRoots) == nil)
-		}
-		if w.part != nil {
-			verifAssume(w.part.Undo(na, r.b.proof, r.b.hashes, r.prevRoots) == nil)
-			w.partHeld = c14Union(r.prevHeld, r.b.delSlots)
-		}
-		w.rm = r.rm
+		w.undoLast("C10.undo")
 		undone = true
 	}
 	if verifParam("restore", 0) == 1 {
@@ -150,6 +138,12 @@ func HarnessC10Lookups() {
 			verifAssume(err == nil)
 			w.part = &q
 		}
+	}
+	if verifParam("afterBlock", 0) == 1 {
+		// one more honest block on the (possibly restored / undone) forests before the look-ups
+		bv := w.rm.view()
+		b := w.rm.refBlock(bv, 1, verifParam("A2", 2))
+		w.block(b, "C10.afterBlock")
 	}
 	v := w.rm.view()
 	live := w.rm.liveSlots()
